@@ -5,16 +5,24 @@ package c07
 
 import (
 	"encoding/json"
+	"io"
 	"math/rand"
+	"net"
 	"os"
 	"sync"
+	"time"
 
 	"github.com/plgd-dev/go-coap/v3/message/codes"
 	"github.com/plgd-dev/go-coap/v3/message/pool"
+	coapNet "github.com/plgd-dev/go-coap/v3/net"
 	"github.com/plgd-dev/go-coap/v3/net/responsewriter"
+	"github.com/plgd-dev/go-coap/v3/options"
+	"github.com/plgd-dev/go-coap/v3/tcp"
 	tcpclient "github.com/plgd-dev/go-coap/v3/tcp/client"
+	tcpserver "github.com/plgd-dev/go-coap/v3/tcp/server"
 
 	"verifharness/internal/conns"
+	"verifharness/internal/hooks"
 	"verifharness/internal/rec"
 )
 
@@ -143,7 +151,127 @@ func expand(s Sched, n, cache int) []int {
 	return cuts
 }
 
+// runSockets: the same stream through the option plumbing - a real tcp server created with options.WithMaxMessageSize(max) (kind
+// "server": a raw socket peer writes the bytes) or the library's own client tcp.Dial(..., WithMaxMessageSize(max)) (kind "dial":
+// a raw listener writes them). One write, one observation at the end.
+func runSockets(sd StreamDef, cache int, s Sched) Rec {
+	r := Rec{SI: sd.SI, Max: sd.Max, Cache: cache, Sched: s.Kind, Reads: []ReadObs{}, Msgs: []MsgSum{}, Sigs: []int{}}
+	var mu sync.Mutex
+	handler := func(_ *responsewriter.ResponseWriter[*tcpclient.Conn], m *pool.Message) {
+		body, _ := m.ReadBody()
+		sum := 0
+		for _, b := range body {
+			sum = (sum + int(b)) % 65521
+		}
+		mu.Lock()
+		r.Msgs = append(r.Msgs, MsgSum{Code: int(m.Code()), Tok: rec.Bytes(m.Token()), PayLen: len(body), PaySum: sum, NOpts: len(m.Options())})
+		mu.Unlock()
+	}
+	onSig := func(c codes.Code) { mu.Lock(); r.Sigs = append(r.Sigs, int(c)); mu.Unlock() }
+	data := make([]byte, len(sd.Bytes))
+	for i, v := range sd.Bytes {
+		data[i] = byte(v)
+	}
+	common := []tcpserver.Option{options.WithMaxMessageSize(uint32(sd.Max)), options.WithConnectionCacheSize(uint16(cache)), options.WithErrors(func(error) {}),
+		options.WithHandlerFunc(handler), options.WithReceivedMessageQueueSize(16)}
+	var done <-chan struct{}
+	var cleanup func()
+	if s.Kind == "server" {
+		l, err := coapNet.NewTCPListener("tcp4", "127.0.0.1:0")
+		if err != nil {
+			rec.Die("listen: %v", err)
+		}
+		got := make(chan *tcpclient.Conn, 1)
+		sv := tcp.NewServer(append(common, options.WithOnNewConn(func(cc *tcpclient.Conn) {
+			cc.SetTCPSignalReceivedHandler(onSig)
+			select {
+			case got <- cc:
+			default:
+			}
+		}))...)
+		go func() { _ = sv.Serve(l) }()
+		peer, err := net.DialTimeout("tcp4", l.Addr().String(), time.Second)
+		if err != nil {
+			rec.Die("dial: %v", err)
+		}
+		go func() { _, _ = io.Copy(io.Discard, peer) }()
+		select {
+		case cc := <-got:
+			done = cc.Done()
+		case <-time.After(time.Second):
+			r.Stuck = true
+		}
+		_, _ = peer.Write(data)
+		cleanup = func() { _ = peer.Close(); sv.Stop(); _ = l.Close() }
+	} else {
+		l, err := net.Listen("tcp4", "127.0.0.1:0")
+		if err != nil {
+			rec.Die("listen: %v", err)
+		}
+		acc := make(chan net.Conn, 1)
+		go func() {
+			if c, err := l.Accept(); err == nil {
+				acc <- c
+				_, _ = io.Copy(io.Discard, c)
+			}
+		}()
+		cc, err := tcp.Dial(l.Addr().String(), options.WithMaxMessageSize(uint32(sd.Max)), options.WithConnectionCacheSize(uint16(cache)), options.WithErrors(func(error) {}),
+			options.WithHandlerFunc(handler), options.WithReceivedMessageQueueSize(16))
+		if err != nil {
+			rec.Die("dial: %v", err)
+		}
+		cc.SetTCPSignalReceivedHandler(onSig)
+		done = cc.Done()
+		var peer net.Conn
+		select {
+		case peer = <-acc:
+			_, _ = peer.Write(data)
+		case <-time.After(time.Second):
+			r.Stuck = true
+		}
+		cleanup = func() {
+			_ = cc.Close()
+			if peer != nil {
+				_ = peer.Close()
+			}
+			_ = l.Close()
+		}
+	}
+	defer cleanup()
+	closed := func() bool {
+		if done == nil {
+			return false
+		}
+		select {
+		case <-done:
+			return true
+		default:
+			return false
+		}
+	}
+	// settle: nothing new for 150 ms (or the connection closed)
+	last, since := -1, time.Now()
+	hooks.WaitFor(3*time.Second, func() bool {
+		mu.Lock()
+		n := len(r.Msgs) + len(r.Sigs)
+		mu.Unlock()
+		if n != last {
+			last, since = n, time.Now()
+		}
+		return time.Since(since) > 150*time.Millisecond || (closed() && time.Since(since) > 20*time.Millisecond)
+	})
+	r.NReads = 1
+	mu.Lock()
+	r.Reads = append(r.Reads, ReadObs{Pos: len(data), NMsgs: len(r.Msgs), NSigs: len(r.Sigs), Closed: closed()})
+	mu.Unlock()
+	r.Closed = closed()
+	return r
+}
+
 func runOne(sd StreamDef, cache int, s Sched) Rec {
+	if s.Kind == "server" || s.Kind == "dial" {
+		return runSockets(sd, cache, s)
+	}
 	r := Rec{SI: sd.SI, Max: sd.Max, Cache: cache, Sched: s.Kind, Reads: []ReadObs{}, Msgs: []MsgSum{}, Sigs: []int{}}
 	var mu sync.Mutex
 	t := conns.NewTCP(func(cfg *tcpclient.Config) {
